@@ -47,11 +47,11 @@ def step (st : St) (t : List String) : St × String :=
       | some b => (st, "ok " ++ toHex b)
       | none => (st, "err")
     | none => (st, "bad-op")
-  -- sign <signers> <privs> <seedlen> <msg> <w list> <z> <x>
-  | ["sign", signers, privs, seedLen, _msg, w, z, x] =>
-    match parseInts signers, parsePrivs privs, seedLen.toNat?, parseNatList w, z.toNat?, x.toNat? with
-    | some sg, some ps, some sl, some w, some z, some x =>
-      match sign ps st.publics sg sl w z x with
+  -- sign <signers> <privs> <seed hex> <msg> <w list> <z> <x>
+  | ["sign", signers, privs, seed, _msg, w, z, x] =>
+    match parseInts signers, parsePrivs privs, parseHex seed, parseNatList w, z.toNat?, x.toNat? with
+    | some sg, some ps, some sd, some w, some z, some x =>
+      match sign ps st.publics sg sd.length w z x with
       | some (Pt.dl r, s) => (st, s!"ok {r} {s}")
       | some (Pt.bad, s) => (st, s!"ok x {s}")
       | none => (st, "err")
